@@ -129,11 +129,6 @@ def main(pid, tier="quick", seed=0, replay=None):
         n = mod.N_THOROUGH if tier == "thorough" else mod.N_QUICK
         for i in range(n):
             cases.append(canon(mod.gen(rng, i, tier)))
-    results, req_lines, out_lines = run_cases(mod, cases)
-
-    # ---- cross-check of extraction against vm_compute
-    cross = lib.vm_crosscheck(pid, req_lines, out_lines, limit=200 if tier == "thorough" else 40)
-
     # ---- known findings (probed, printed, never fail the check)
     known_hashes = set()
     for kf in lib.load_known():
@@ -151,7 +146,7 @@ def main(pid, tier="quick", seed=0, replay=None):
         elif present:
             v.violation("counterexample", {"what": "unlisted finding probe fails: " + text, "probe": fid})
 
-    # ---- verdict
+    # ---- run implementation and model, in chunks (only summaries and the failing / disagreeing cases are kept)
     seen = set()
     distinct_nontrivial = 0
     hist = Counter()
@@ -159,25 +154,46 @@ def main(pid, tier="quick", seed=0, replay=None):
     samples = []
     reported = 0
     MAXREP = 5
+    KEEP = 40
     failing, disagreeing = [], []
-    for r in results:
-        h = lib.jhash(r["case"])
-        hist[mod.describe(r["case"])] += 1
-        if r["model"] == SKIP:
-            skipped += 1
-        if h not in seen:
-            seen.add(h)
-            if mod.nontrivial(r["case"], r["impl"]):
-                distinct_nontrivial += 1
-                if len(samples) < 4:
-                    samples.append({"case": r["case"], "observed": r["impl"]})
-        known_tag = getattr(mod, "known_case", lambda c, o: None)(r["case"], r["impl"])
-        if known_tag and known_tag in known_hashes:
-            continue
-        if r["oracle"] is not None:
-            failing.append(r)
-        elif not r["agree"]:
-            disagreeing.append(r)
+    n_results = n_disagree = n_oracle = n_requests = 0
+    first_case = cases[0] if cases else None
+    req_lines, out_lines = [], []
+    CHUNK = 2000
+    for start in range(0, len(cases), CHUNK):
+        results, rl, ol = run_cases(mod, cases[start:start + CHUNK])
+        n_requests += len(rl)
+        if len(req_lines) < 4000:
+            req_lines.extend(rl)
+            out_lines.extend(ol)
+        for r in results:
+            n_results += 1
+            n_disagree += 0 if r["agree"] else 1
+            n_oracle += 0 if r["oracle"] is None else 1
+            h = lib.jhash(r["case"])
+            hist[mod.describe(r["case"])] += 1
+            if r["model"] == SKIP:
+                skipped += 1
+            if h not in seen:
+                seen.add(h)
+                if mod.nontrivial(r["case"], r["impl"]):
+                    distinct_nontrivial += 1
+                    if len(samples) < 4:
+                        samples.append({"case": r["case"], "observed": r["impl"]})
+            known_tag = getattr(mod, "known_case", lambda c, o: None)(r["case"], r["impl"])
+            if known_tag and known_tag in known_hashes:
+                continue
+            if r["oracle"] is not None:
+                if len(failing) < KEEP:
+                    failing.append(r)
+            elif not r["agree"]:
+                if len(disagreeing) < KEEP:
+                    disagreeing.append(r)
+        del results
+
+    # ---- cross-check of extraction against vm_compute
+    cross = lib.vm_crosscheck(pid, req_lines, out_lines, limit=200 if tier == "thorough" else 40)
+
     # a concrete failing input, when the search found one, is the report; disagreements on which the oracle found
     # nothing are reported (as unproved, no failing input) only when there is no counterexample at all
     for r in failing[:MAXREP]:
@@ -221,14 +237,14 @@ def main(pid, tier="quick", seed=0, replay=None):
         "trusted_base": lib.STD_TRUSTED + list(getattr(mod, "extra_trusted", [])),
         "theorems": proof.get("theorems", []),
         "print_assumptions": {"closed_under_global_context": proof.get("closed", 0), "axioms": proof.get("axioms", [])},
-        "evaluations": len(results),
+        "evaluations": n_results,
         "distinct_nontrivial": distinct_nontrivial,
         "rule": getattr(mod, "RULE", ""),
-        "samples": samples or [{"case": results[0]["case"]}] if results else [],
-        "correspondence": {"cases": len(results), "model_unmodelled_skips": skipped,
-                           "disagreements": sum(1 for r in results if not r["agree"]),
-                           "oracle_failures": sum(1 for r in results if r["oracle"] is not None),
-                           "model_requests": len(req_lines)},
+        "samples": samples or ([{"case": first_case}] if first_case is not None else []),
+        "correspondence": {"cases": n_results, "model_unmodelled_skips": skipped,
+                           "disagreements": n_disagree,
+                           "oracle_failures": n_oracle,
+                           "model_requests": n_requests},
         "vm_compute_crosscheck": cross,
         "forbidden_declarations_found": len(forbidden),
         "coqchk": chk,
